@@ -55,7 +55,7 @@ import (
 const (
 	c20Poll     = 30 * time.Second
 	c20RaftTO   = 2 * time.Second
-	c20ReadSQL  = `SELECT COUNT(*) AS n, MAX(id) AS m FROM t`
+	c20ReadSQL0 = `SELECT COUNT(*) AS n, MAX(id) AS m FROM t`
 	c20QueueTO  = "4s"
 	c20NumNodes = 3
 )
@@ -214,6 +214,11 @@ type c20Cluster struct {
 	seq     int
 	failErr any // the leader's own result for the failing statement
 	dead    bool
+
+	mark        int           // literal put into the read statement of the step being run (0: none)
+	slowN       int64         // size of the slow statement, calibrated on this cluster's leader
+	slowTook    time.Duration // what it took there
+	slowTimeout time.Duration // the caller's timeout for a slow step
 }
 
 var errC20Infra = errors.New("cluster infrastructure fault")
@@ -244,7 +249,7 @@ func c20NewCluster(t *testing.T) (c *c20Cluster, err error) {
 		}
 	}
 	ldr := c.nodes[0]
-	for _, sql := range []string{`CREATE TABLE t (id INTEGER PRIMARY KEY AUTOINCREMENT, v TEXT)`, `INSERT INTO t(id, v) VALUES(1, 'seed')`} {
+	for _, sql := range []string{`CREATE TABLE t (id INTEGER PRIMARY KEY AUTOINCREMENT, v TEXT)`, `INSERT INTO t(id, v) VALUES(1, 'seed')`, `CREATE TABLE s (id INTEGER PRIMARY KEY AUTOINCREMENT, v TEXT)`} {
 		res, _, err := ldr.Store.Execute(context.Background(), &proto.ExecuteRequest{Request: &proto.Request{Statements: []*proto.Statement{{Sql: sql}}}})
 		if err != nil || len(res) != 1 || res[0].GetError() != "" {
 			panic(fmt.Sprintf("seed %q: %v %v", sql, err, res))
@@ -464,13 +469,21 @@ type c20Step struct {
 	Kind     string `json:"kind"`   // exec execfail qstrong qweak qnone reqw reqs reqmix queued
 	Target   string `json:"target"` // leader follower nonvoter
 	Redirect bool   `json:"redirect"`
-	Cred     string `json:"cred"` // none wrongpw lacking full exact targetonly
+	Cred     string `json:"cred"`           // none wrongpw lacking full exact targetonly
+	Slow     bool   `json:"slow,omitempty"` // [slow] the statement keeps the leader busy much longer than the caller's timeout
+	Mark     int    `json:"mark,omitempty"` // [slow] makes this step's read statement (and so its result) distinct
 }
 
 func (s c20Step) String() string {
 	rd := ""
 	if s.Redirect {
 		rd = "+redirect"
+	}
+	if s.Slow {
+		rd += "+slow"
+	}
+	if s.Mark != 0 {
+		rd += fmt.Sprintf("#%d", s.Mark)
 	}
 	return fmt.Sprintf("%s@%s%s/%s", s.Kind, s.Target, rd, s.Cred)
 }
@@ -538,6 +551,13 @@ func (c *c20Cluster) send2(n *c20Node, s c20Step, tag string) (status int, hdr h
 		q.Set("redirect", "")
 	}
 	ins := fmt.Sprintf(`INSERT INTO t(v) VALUES('%s')`, tag)
+	c20ReadSQL := c.readSQL()
+	if s.Slow {
+		// a statement that keeps the leader busy far longer than the caller is prepared to wait
+		ins = fmt.Sprintf(`INSERT INTO s(v) SELECT '%s' FROM (%s) WHERE n > 0`, tag, c.slowSQL())
+		c20ReadSQL = c.slowSQL()
+		q.Set("timeout", c.slowTimeout.String())
+	}
 	var method, payload string
 	switch s.Kind {
 	case "exec":
@@ -589,9 +609,70 @@ func c20JSON(v any) string {
 	return string(b)
 }
 
+func (c *c20Cluster) readSQL() string {
+	if c.mark == 0 {
+		return c20ReadSQL0
+	}
+	return fmt.Sprintf(`SELECT COUNT(*) AS n, MAX(id) AS m, %d AS k FROM t`, c.mark)
+}
+
+func (c *c20Cluster) slowSQL() string {
+	return fmt.Sprintf(`WITH RECURSIVE c(x) AS (SELECT 1 UNION ALL SELECT x+1 FROM c WHERE x < %d) SELECT COUNT(*) AS n FROM c`, c.slowN)
+}
+
+// calibrate sizes the slow statement on this cluster's leader so that it takes
+// about 600 ms there (measured directly, level none), and sets the caller's
+// timeout for slow steps to an eighth of what was measured.
+func (c *c20Cluster) calibrate() error {
+	if c.slowN != 0 {
+		return nil
+	}
+	ldr, err := c.leader()
+	if err != nil {
+		return err
+	}
+	measure := func(n int64) (time.Duration, error) {
+		c.slowN = n
+		qr := &proto.QueryRequest{Request: &proto.Request{Statements: []*proto.Statement{{Sql: c.slowSQL()}}}, Level: proto.ConsistencyLevel_NONE}
+		t0 := time.Now()
+		rows, _, _, err := ldr.Store.Query(context.Background(), qr)
+		if err != nil || len(rows) != 1 || rows[0].Error != "" {
+			return 0, fmt.Errorf("%w: calibration statement: %v %v", errC20Infra, err, rows)
+		}
+		return time.Since(t0), nil
+	}
+	// the shorter of two runs is the better estimate of what the statement costs when nothing else competes;
+	// grow the statement until that estimate reaches 600 ms
+	n := int64(200000)
+	var d time.Duration
+	for i := 0; ; i++ {
+		d1, err := measure(n)
+		if err != nil {
+			return err
+		}
+		d2, err := measure(n)
+		if err != nil {
+			return err
+		}
+		d = min(d1, d2)
+		if d >= 600*time.Millisecond {
+			break
+		}
+		if i == 12 {
+			return fmt.Errorf("%w: could not size the slow statement (n=%d took %v)", errC20Infra, n, d)
+		}
+		f := float64(750*time.Millisecond) / float64(d+time.Millisecond)
+		f = max(1.3, min(f, 8))
+		n = int64(float64(n) * f)
+	}
+	c.slowN, c.slowTook, c.slowTimeout = n, d, (d / 8).Round(time.Millisecond)
+	return nil
+}
+
 // leaderRead asks the leader itself, directly, for its answer to the read statement
 // (level none: no log entry), through the endpoint family the step used.
 func (c *c20Cluster) leaderRead(ldr *c20Node, unified bool) (any, error) {
+	c20ReadSQL := c.readSQL()
 	var req *http.Request
 	if unified {
 		req, _ = http.NewRequest("POST", "http://"+ldr.APIAddr+"/db/request?level=none", strings.NewReader(c20JSON([]string{c20ReadSQL})))
@@ -891,7 +972,7 @@ func c20Steps(kinds, targets, creds []string, redirects []bool) []c20Step {
 					if cr == "exact" && len(c20Kinds[k].perms) == 2 {
 						continue // the same user as "full"
 					}
-					out = append(out, c20Step{k, t, rd, cr})
+					out = append(out, c20Step{Kind: k, Target: t, Redirect: rd, Cred: cr})
 				}
 			}
 		}
@@ -918,6 +999,9 @@ func (h c20Hist) String() string {
 	if h.Section == "single" {
 		pre = fmt.Sprintf("[after %d leadership transfers] ", h.Stepdowns)
 	}
+	if h.Section == "slow" {
+		return strings.Join(p, " ; ")
+	}
 	return pre + strings.Join(p, " ; transfer ; ")
 }
 
@@ -931,7 +1015,7 @@ func TestVerif_C20(t *testing.T) {
 	if r.Thorough() {
 		creds = append(creds, "lacking2")
 	}
-	r.Rule("requests: kind {execute insert, execute failing insert, query strong|weak|none, unified insert, unified strong select, unified insert+select} x node asked {leader, voting follower, non-voter} x redirect {off,on} x credentials {none, wrong password, user lacking a needed permission, user with all permissions, user with exactly the permission needed, user only the asked node knows} over HTTP on a live 3-node cluster with credential stores. [single] each request with leadership where it was born and again after one and two leadership transfers. [pairs] histories step1 ; leadership transfer ; step2 with step1 over one request per forwarding channel (execute, query, unified) x node asked and step2 over kind x node asked x redirect (thorough: step1 over kind x node asked, step2 also x credentials {with the permissions, none, only the asked node knows}). [queued] queued writes (queue+wait) x node asked x redirect x credentials, on clusters of their own. [move] a write|strong read|unified write sent to each node while a leadership transfer is started 0/1/5/20 ms earlier or later. distinct = (history, outcome of each step)")
+	r.Rule("requests: kind {execute insert, execute failing insert, query strong|weak|none, unified insert, unified strong select, unified insert+select} x node asked {leader, voting follower, non-voter} x redirect {off,on} x credentials {none, wrong password, user lacking a needed permission, user with all permissions, user with exactly the permission needed, user only the asked node knows} over HTTP on a live 3-node cluster with credential stores. [single] each request with leadership where it was born and again after one and two leadership transfers. [pairs] histories step1 ; leadership transfer ; step2 with step1 over one request per forwarding channel (execute, query, unified) x node asked and step2 over kind x node asked x redirect (thorough: step1 over kind x node asked, step2 also x credentials {with the permissions, none, only the asked node knows}). [slow] a strong query | unified strong select | execute | unified write whose statement keeps the leader busy ~8x longer than the timeout= the caller allows (statement sized by measuring it on the leader), sent through the follower | the non-voter, followed by three fast, mutually distinct requests of one kind {execute, query strong, unified write, unified strong select, query weak} through the same node, each judged by the usual oracle; the slow write may be applied at most once. [queued] queued writes (queue+wait) x node asked x redirect x credentials, on clusters of their own. [move] a write|strong read|unified write sent to each node while a leadership transfer is started 0/1/5/20 ms earlier or later. distinct = (history, outcome of each step)")
 	r.Assume("one client and one request at a time (except [move]); raft's own interleavings are not controlled and no oracle depends on them")
 	r.Note("a history during which leadership moved by itself, or after which the nodes did not converge within 30 s, is repeated on a new cluster")
 
@@ -956,6 +1040,15 @@ func TestVerif_C20(t *testing.T) {
 		for _, s1 := range c20Steps(k1, c20AllTargets, []string{"full"}, []bool{false}) {
 			for _, s2 := range c20Steps(c20KindOrder, c20AllTargets, cr2, []bool{false, true}) {
 				hists = append(hists, c20Hist{Section: "pairs", Steps: []c20Step{s1, s2}})
+			}
+		}
+		for _, k1 := range []string{"qstrong", "reqs", "exec", "reqw"} {
+			for _, k2 := range []string{"exec", "qstrong", "reqw", "reqs", "qweak"} {
+				for _, tg := range []string{"follower", "nonvoter"} {
+					hists = append(hists, c20Hist{Section: "slow", Steps: []c20Step{
+						{Kind: k1, Target: tg, Cred: "full", Slow: true},
+						{Kind: k2, Target: tg, Cred: "full", Mark: 1}, {Kind: k2, Target: tg, Cred: "full", Mark: 2}, {Kind: k2, Target: tg, Cred: "full", Mark: 3}}})
+				}
 			}
 		}
 		for _, s := range c20Steps([]string{"queued"}, c20AllTargets, []string{"none", "wrongpw", "lacking", "full"}, []bool{false, true}) {
@@ -1016,7 +1109,17 @@ func TestVerif_C20(t *testing.T) {
 							}
 						}
 						var outs []string
+						if h.Section == "slow" {
+							so, err := c.runSlow(k, h)
+							if err != nil {
+								return err
+							}
+							outs = so
+						}
 						for i, s := range h.Steps {
+							if h.Section == "slow" {
+								break
+							}
 							if i > 0 {
 								if err := c.stepdown(); err != nil {
 									return err
@@ -1070,7 +1173,7 @@ func TestVerif_C20(t *testing.T) {
 	// "single" histories sorted by stepdown count so that a cluster is reused as long as possible
 	for i, h := range hists {
 		if r.OverBudget() {
-			r.Cap("time budget used up after %d of %d histories (order: single, pairs, queued, move)", i, len(hists))
+			r.Cap("time budget used up after %d of %d histories (order: single, pairs, slow, queued, move)", i, len(hists))
 			break
 		}
 		work <- h
@@ -1079,6 +1182,111 @@ func TestVerif_C20(t *testing.T) {
 	wg.Wait()
 	r.State(len(hists))
 	r.Set("step_outcomes", outcomes)
+}
+
+// ---- a forwarded request that outlasts the caller's timeout, then more traffic ----
+
+// runSlow: step 1 is forwarded through h.Steps[0].Target with a statement that
+// keeps the leader busy ~8 times longer than the timeout the caller allows, so the
+// asked node gives up waiting while the leader is still working (the leader finishes
+// later). Steps 2.. are ordinary, fast, mutually distinct forwarded requests through
+// the same node, judged by the usual oracle: each must come back with the leader's
+// results and index for THAT request. Whether step 1 is answered or fails is up to
+// the run; if it was a write, it may be there at most once in the end.
+func (c *c20Cluster) runSlow(k0 *c20Checker, h c20Hist) (outs []string, retErr error) {
+	if err := c.calibrate(); err != nil {
+		return nil, err
+	}
+	k := &c20Checker{r: k0.r}
+	defer func() {
+		if retErr == nil {
+			k.flush()
+		}
+	}()
+	s1 := h.Steps[0]
+	s1.Slow = true
+	target, err := c.role(s1.Target)
+	if err != nil {
+		return nil, err
+	}
+	c.takeAll()
+	c.seq++
+	tag := fmt.Sprintf("slow%d", c.seq)
+	user, pass, _ := c20UserPass(s1, target)
+	t0 := time.Now()
+	status, _, body, err := c.send(target, s1, tag)
+	if err != nil {
+		return nil, fmt.Errorf("%w: %s: %v", errC20Infra, s1, err)
+	}
+	took := time.Since(t0)
+	answered := false
+	var pb map[string]any
+	if status == 200 && json.Unmarshal([]byte(body), &pb) == nil {
+		_, hasErr := pb["error"]
+		answered = !hasErr
+	}
+	short := strings.TrimSpace(body)
+	if len(short) > 160 {
+		short = short[:160]
+	}
+	fmt.Fprintf(os.Stderr, "C20 slow: %s (statement sized to %v on the leader, caller timeout %v): status %d after %v: %s\n", s1, c.slowTook, c.slowTimeout, status, took.Round(time.Millisecond), short)
+	if answered {
+		k.r.Add("slow_step_answered_within_timeout", 1)
+		outs = append(outs, "slow-step-answered")
+	} else {
+		outs = append(outs, "slow-step-gave-up")
+	}
+	_, clCalls, _ := c.takeAll()
+	for _, n := range c.nodes {
+		for _, cl := range clCalls[n.idx] {
+			if cl.User != user || cl.Pass != pass {
+				k.vio("slow:forwarded-credentials-not-the-callers", s1, h.String(), fmt.Sprintf("node n%d was asked with user %q password %q; the caller sent %q/%q", n.idx, cl.User, cl.Pass, user, pass), h)
+				break
+			}
+		}
+	}
+	k.flush()
+
+	for i, s := range h.Steps[1:] {
+		c.mark = s.Mark
+		out, err := c.run(k0, s, fmt.Sprintf("%s step %d", h, i+2), h)
+		c.mark = 0
+		if err != nil {
+			return nil, err
+		}
+		outs = append(outs, out)
+	}
+
+	// the leader has finished whatever it was still doing (settle ran in the last step); is the slow write there, and how often?
+	if err := c.flushLog(); err != nil {
+		return nil, err
+	}
+	if err := c.settle(); err != nil {
+		return nil, err
+	}
+	if c20Kinds[s1.Kind].writes {
+		applied := int64(-1)
+		for _, n := range c.nodes {
+			qr := &proto.QueryRequest{Request: &proto.Request{Statements: []*proto.Statement{{Sql: fmt.Sprintf(`SELECT COUNT(*) FROM s WHERE v='%s'`, tag)}}}, Level: proto.ConsistencyLevel_NONE}
+			rows, _, _, err := n.Store.Query(context.Background(), qr)
+			if err != nil || len(rows) != 1 || len(rows[0].Values) != 1 {
+				return nil, fmt.Errorf("%w: count on n%d: %v", errC20Infra, n.idx, err)
+			}
+			cnt := rows[0].Values[0].Parameters[0].GetI()
+			if applied >= 0 && cnt != applied {
+				k.vio("slow:nodes-differ", s1, h.String(), fmt.Sprintf("the slow write is on node n%d %d times, on another %d times", n.idx, cnt, applied), h)
+			}
+			applied = cnt
+		}
+		if applied > 1 {
+			k.vio("slow:given-up-write-applied-more-than-once", s1, h.String(), fmt.Sprintf("the asked node stopped waiting for the leader after its timeout of %v (it answered the caller after %v with status %d: %s); the leader applied the write %d times", c.slowTimeout, took.Round(time.Millisecond), status, short, applied), h)
+		}
+		if answered && applied < 1 {
+			k.vio("slow:success-reported-but-write-applied-"+fmt.Sprint(c20Cap(int(applied)))+"-times", s1, h.String(), short, h)
+		}
+		fmt.Fprintf(os.Stderr, "C20 slow: %s: write applied %d times\n", s1, applied)
+	}
+	return outs, nil
 }
 
 // ---- requests racing a leadership transfer ----------------------------------
